@@ -69,7 +69,7 @@ def cspecRun (cfg : Cfg) : SWorld → List Ev → List CObs → Option String
 
 /-- the schedules of the domain: every request's script is in the domain of the oracle -/
 def Ev.inDomain : Ev → Bool
-  | .start _ q => scriptInDomain q.viaMw false false q.script
+  | .start _ q => scriptInDomain false q.script
   | _ => true
 
 end C15
